@@ -1,6 +1,7 @@
 import NfpmModel.Lemmas.ArchiveLemmas
 import NfpmModel.Lemmas.ArLemmas
 import NfpmModel.Lemmas.TarLemmas
+import NfpmModel.Lemmas.CpioLemmas
 import NfpmModel.Props.C05
 import NfpmModel.Generated.G8WriteTgz
 import NfpmModel.Generated.G7Accepted
@@ -486,6 +487,21 @@ theorem rpm_file_list_sorted (now imt : Int) (plan : List Content) :
   have h := List.pairwise_mergeSort (le := fun (a b : Member) => leB a.name b.name) nameLe_trans nameLe_total
     (plan.filterMap (rpmMember now imt))
   exact ⟨h, h.sublist List.filter_sublist⟩
+
+/-- **the rpm payload is a well-formed cpio archive, byte for byte**: from the SVR4 ("newc") stream rpmpack's cpio
+    writer produces – 110-byte upper-case-hex headers with running inode numbers, NUL-terminated names and bodies
+    padded to 4, the TRAILER!!! entry last – an independent reader recovers exactly the entries that were written,
+    in order, and stops at the trailer (guards: every number below 16^8, no entry named like the trailer) -/
+theorem rpm_cpio_roundtrip (es : List Cpio.Entry) (hok : ∀ e ∈ es, Cpio.EntryOK e) (hn : 1 + es.length < 16 ^ 8) :
+    Cpio.read (Cpio.archive es) = some (Cpio.expected 1 es) :=
+  Cpio.read_archive es hok hn
+
+/-- … and what it recovers carries the names and bodies of the written entries in the written order -/
+theorem rpm_cpio_entries_in_order (es : List Cpio.Entry) (ino : Nat) :
+    (Cpio.expected ino es).map (fun r => (r.name, r.body)) = es.map (fun e => (e.name, e.body)) := by
+  induction es generalizing ino with
+  | nil => rfl
+  | cons e rest ih => simp [Cpio.expected, ih]
 
 /-- rpm never lists the root or an implicit directory (ghosts are listed, not shipped) -/
 theorem rpm_skips_implicit (now imt : Int) (c : Content) (h : c.type = T.implicitDir) : rpmMember now imt c = none := by
